@@ -15,7 +15,7 @@ TOL = 1e-10
 
 
 def plan(tier):
-    n = 400 if tier == 'quick' else 6000
+    n = 400 if tier == 'quick' else 4000
     return dict(n_cases=n, shards=16, min_nontrivial=n // 3,
                 min_tags={'clause:bay_total_mass': n // 14, 'clause:blade1d_mass': n // 14, 'clause:entrywise': n // 3, 'clause:total_mass': n // 12, 'clause:invariance': n // 12,
                           'offset:nonzero': n // 6},
@@ -149,7 +149,7 @@ def run_case(rng, tier, idx):
             eva = np.linalg.eigvalsh(blk[np.ix_(act, act)])
             # mathematically PD; on narrow sub-intervals the polynomial Gram matrix is too ill-conditioned
             # for the sign of its smallest eigenvalue to be resolved in double precision
-            c.judge('positive definite on the active amplitudes (up to round-off)', max(0.0, -eva.min()), 1e-11 * eva.max())
+            c.judge('positive definite on the active amplitudes (up to round-off)', max(0.0, -eva.min()), 1e-11 * gen.subinterval_amplification(d) * eva.max())
             if 'y1' not in d and d['model'] != 'kpanel' and max(d['m'], d['n']) <= 6:
                 c.expect('strictly positive definite on the active amplitudes (full domain)', eva.min() > 0,
                          'min %.3e max %.3e' % (eva.min(), eva.max()))
